@@ -123,6 +123,17 @@ def callsJ (log : List Ev) : Json :=
     | .call _ f args => some (Json.arr (#[jstr f] ++ (args.map valJ).toArray))
     | _ => none)).toArray
 
+partial def binopOperand (j : Json) : P Val := do
+  let a ← arr j
+  match (← str a[0]!) with
+  | "invalid" => pure .invalid
+  | "nilptr" => pure .nilptr
+  | "pscalar" => binopOperand a[1]!
+  | "iscalar" => binopOperand a[1]!
+  | _ => match (← node j) with
+    | .leaf v => pure v
+    | _ => throw "binop operand"
+
 def doOp (w : World) (op : Json) : P (World × Json) := do
   let get := fun (k : String) => match fieldOpt op k with
     | some (.str s) => s
@@ -205,6 +216,16 @@ def doOp (w : World) (op : Json) : P (World × Json) := do
       let kb := w.kb kbKey kbName ver
       let kb' := if fieldOpt op "viaKb" == some (.bool true) then kb.remove (get "rule") else kb.removeLib (get "uuid") (get "rule")
       pure ({ w with kbs := assocSet kbKey kb' w.kbs }, Json.mkObj [("rules", rulesJ kb'.entries)])
+  | "binop" =>
+    let l ← binopOperand (← field op "l")
+    let r ← binopOperand (← field op "r")
+    let o ← binop (get "o")
+    let cfg := mkCfg true genTab Gen.setNumberCells factMethods {}
+    match evalBinOp cfg [] o l r with
+    | .ok v => pure (w, Json.mkObj [("v", valJ v)])
+    | .error (.eval _) => pure (w, Json.mkObj [("err", jstr "error")])
+    | .error (.panic _) => pure (w, Json.mkObj [("err", jstr "panic")])
+    | .error (.unmodelled m) => pure (w, Json.mkObj [("out", jstr s!"unmodelled:{m}")])
   | o => pure (w, Json.mkObj [("skip", jstr s!"op {o} not modelled")])
 
 def doScenario (j : Json) : Json :=
